@@ -141,3 +141,27 @@ def replay_c19(vc, unit):
     res = dec(out["result"])
     rec["native_result"] = res
     return bool(res.get("violates")), rec
+
+
+def replay_protocol(vc, unit):
+    from pyvc import units
+    from pyvc.native import dec
+    w = vc.get("witness") or {}
+    clause = vc["name"].rsplit("/", 1)[-1]
+    uname = vc["name"].split("/")[0]
+    kind = "udp" if "Udp" in uname else "tcp"
+    if "which" in w:
+        task = {"op": "func", "module": "contracts.protocol_native", "func": "replay_callback",
+                "kwargs": {"kind": kind, "which": w["which"], "retry": w.get("retry", 0), "retries": w.get("retries", 3),
+                           "fstate": w.get("fstate", -1), "validator": w.get("validator", "True"), "check": clause}}
+    else:
+        task = {"op": "func", "module": "contracts.protocol_native", "func": "replay_exit",
+                "kwargs": {"kind": kind, "retries": w.get("retries", 2), "keep_alive": w.get("keep_alive", False),
+                           "check": clause}}
+    out = units.native_batch([task])[0]
+    rec = {"kind": "script", "native_task": task, "native_result": out}
+    if not out["ok"]:
+        return None, rec
+    res = dec(out["result"])
+    rec["native_result"] = res
+    return bool(res.get("violates")), rec
